@@ -8,7 +8,10 @@ import (
 	"encoding/hex"
 	"fmt"
 	"math/rand"
+	"os"
+	"os/exec"
 	"sort"
+	"strconv"
 	"strings"
 	"sync"
 	"sync/atomic"
@@ -218,15 +221,44 @@ func (o reopenObs) String() string {
 	return fmt.Sprintf("reopen=ok n=%d held=%d persisted=%d radius=%s maxkept=%s items=%s", o.n, o.held, o.persisted, o.radius, o.maxKept, o.items)
 }
 
-func runCrash(o *Out, r *rand.Rand, thorough bool, _ []string) {
+func runCrash(o *Out, r *rand.Rand, thorough bool, args []string) {
 	nHist, maxCuts, tornSteps := 3, 60, 5
 	if thorough {
-		nHist, maxCuts, tornSteps = 25, 400, 8
+		nHist, maxCuts, tornSteps = 12, 150, 6
+	}
+	// every history runs in a process of its own: the database of a simulated crash cannot be closed (a pending detached
+	// compaction would take the process down) and stays referenced by pebble's background goroutines, several megabytes each,
+	// more than a thousand of them in a run - the memory goes back with the process. `crash <h>` is the child for history h.
+	only := -1
+	if len(args) > 0 {
+		only, _ = strconv.Atoi(args[0])
+	} else {
+		o.Flush()
+		for h := 0; h < nHist; h++ {
+			cmd := exec.Command(os.Args[0], "crash", strconv.Itoa(h))
+			cmd.Env = os.Environ()
+			cmd.Stderr = os.Stderr
+			out, err := cmd.Output()
+			for _, line := range strings.Split(string(out), "\n") {
+				if line != "" && !strings.HasPrefix(line, "#") {
+					fmt.Fprintln(o.w, line)
+				}
+			}
+			o.Flush()
+			if err != nil {
+				fmt.Fprintf(os.Stderr, "crash history %d: %v\n", h, err)
+				os.Exit(4)
+			}
+		}
+		return
 	}
 	for h := 0; h < nHist; h++ {
 		// an independent PRNG per history: the number of file-system operations (background compactions) may vary
 		// from run to run and must not shift later histories
 		r := rand.New(rand.NewSource(r.Int63()))
+		if h != only {
+			continue
+		}
 		var node enode.ID
 		r.Read(node[:])
 		capMB := uint64(1)
